@@ -85,3 +85,15 @@ Proof.
   - left. eexists. split; [vm_compute; reflexivity|]. vm_compute. reflexivity.
   - right. eexists. split; [vm_compute; reflexivity|]. exists (tag_inj kA), (mk_ta kA SRevoked 10%Z). vm_compute. auto.
 Qed.
+
+(* revoked_only_keeps_other_anchors: {A+REVOKE self-signed, B+REVOKE unsigned}, nobody else signs — accepted in
+   revocation-only mode, A is revoked, B stays a Valid, live anchor *)
+Definition kB' := mk_key 2 385.
+Example ex_revoked_only_per_key :
+  let fe := FResp [kA'; kB'] [sg tag_inj kA'] in
+  let r := run_of tag_inj sA 5%Z fe no_faults in
+  (exists ksk2 tombs2, prefetch tag_inj (s_live sA) (s_cfg sA) (s_disk sA) 5%Z no_faults = Some (ksk2, tombs2) /\
+     authenticate tag_inj (trusted_keys ksk2) [kA'; kB'] [sg tag_inj kA'] = AuthRevOnly) /\
+  verify_with tag_inj [kB'] [sg tag_inj kA'] = false /\
+  r_revoked r = [1] /\ r_live r = [kB].
+Proof. split; [eexists; eexists; split; vm_compute; reflexivity|]. vm_compute. auto. Qed.
